@@ -19,46 +19,48 @@ def forests(n):
     rec(0, [])
     return out
 
-def sched_query(pid, nmax, P, steps, tree=None, solver='minisat', timeout=600, drain=None, tag=''):
-    defs = {'NMAX': nmax, 'P': P, 'STEPS': steps}
+def sched_query(pid, nmax, P, steps, tree=None, solver='minisat', timeout=900, drain=None, tag='', markbusy=False, witness=True, snbreak=1):
+    defs = {'NMAX': nmax, 'P': P, 'STEPS': steps, 'SNODE_BREAK': snbreak}
+    if markbusy:
+        defs['WITH_MARK_BUSY'] = None
     if drain:
         defs['DRAIN'] = drain
     if tree is not None:
         defs['FIXTREE'] = cinit(tree)
-    name = '%s.sched.n%d.P%d.s%d.%s%s' % (pid, nmax, P, steps, 'sym' if tree is None else 't' + ''.join(map(str, tree)), tag)
+    name = '%s.sched.n%d.P%d.s%d.%s%s%s' % (pid, nmax, P, steps, 'sym' if tree is None else 't' + ''.join(map(str, tree)), '.mb%d' % snbreak if markbusy else '', tag)
     q = Query(name, 'sched_h.c', SCHED_SRCS, defs=defs, engine='sat', solver=solver, unwind=nmax + 2,
               unwindset={'ParallelInit.0': 8, 'main.11': steps + 1},
               timeout=timeout, group='scheduler n=%d P=%d %s' % (nmax, P, 'symbolic forest' if tree is None else 'fixed forest'))
     q.unwind_big = max(steps + 2, 10)
+    q.witness = witness
     return q
 
-def sched_plan(pid, tier, seed):
+def sched_plan(pid, tier, seed, markbusy=False):
+    import random
+    rnd = random.Random(seed)
     qs = []
-    # symbolic forest: every postordered forest with up to n nodes in ONE query
+    # symbolic forest: every postordered forest on n nodes in ONE query
     for n in (1, 2, 3):
-        qs.append(sched_query(pid, n, 2, 2 * n + 5))
-        qs.append(sched_query(pid, n, 3, 2 * n + 6))   # includes more workers than columns
+        qs.append(sched_query(pid, n, 2, 2 * n + 5, markbusy=markbusy, snbreak=n % 2))
+    qs.append(sched_query(pid, 1, 3, 8, markbusy=markbusy))        # more workers than columns
+    qs.append(sched_query(pid, 2, 3, 10, markbusy=markbusy))
+    f4 = forests(4)
     if tier == 'thorough':
-        qs.append(sched_query(pid, 4, 2, 14, timeout=3000))
-        qs.append(sched_query(pid, 4, 3, 12, timeout=3000))
-        for t in forests(5):
-            qs.append(sched_query(pid, 5, 2, 14, tree=t, timeout=3000))
+        qs.append(sched_query(pid, 3, 3, 12, timeout=3000, markbusy=markbusy))
+        for i, t in enumerate(f4):
+            qs.append(sched_query(pid, 4, 2, 12, tree=t, timeout=3000, markbusy=markbusy, witness=(i % 5 == 0), snbreak=i % 2))
+        for i, t in enumerate(forests(5)):
+            qs.append(sched_query(pid, 5, 2, 14, tree=t, timeout=6000, markbusy=markbusy, witness=False, snbreak=i % 2))
     else:
-        import random
-        rnd = random.Random(seed)
-        f4 = forests(4)
-        for t in f4:
-            qs.append(sched_query(pid, 4, 2, 12, tree=t))
-        f5 = forests(5)
-        for t in rnd.sample(f5, 6):
-            qs.append(sched_query(pid, 5, 2, 12, tree=t, timeout=900))
+        for i, t in enumerate(rnd.sample(f4, 6)):
+            qs.append(sched_query(pid, 4, 2, 12, tree=t, markbusy=markbusy, witness=(i == 0), snbreak=i % 2))
     return qs
 
 META = {
     'level': 'model_checking',
     'engines': 'E1: cbmc 6.11 bit-precise, MiniSat; symbolic schedule, symbolic panel size/relax, symbolic or enumerated forest',
-    'bounds': {'columns': 'quick: all postordered forests n<=3 (symbolic) and n=4 (enumerated, 14), 6 of 42 with n=5; thorough: n<=4 symbolic, all 42 with n=5',
-               'workers': 'P=2 (P=3 for n<=4)', 'panel size': '1..3', 'relax': '1..3',
+    'bounds': {'columns': 'quick: all postordered forests n<=3 (symbolic, one query each) and 6 of the 14 forests with n=4; thorough: + P=3 at n=3, all 14 with n=4, all 42 with n=5',
+               'workers': 'P=2; P=3 for n<=2 (thorough n<=3)', 'panel size': '1..3', 'relax': '1..3',
                'steps': 'symbolic prefix of STEPS scheduler/finish moves followed by a deterministic round-robin drain'},
     'outside': ['instruction-level interleaving inside the scheduler critical section (mutual exclusion trusted to pthreads)',
                 'memory ordering of the volatile spin flags', 'P > 3', 'forests with more than 5 columns',
